@@ -2,6 +2,7 @@ package syncx
 
 import (
 	"fmt"
+	"io"
 	"sort"
 	"sync"
 	"testing"
@@ -118,5 +119,75 @@ func TestVerifSingleFlight(t *testing.T) {
 				})
 			})
 		}
+	}
+}
+
+// "A later call always executes afresh" - also after a call whose function panicked (the
+// panic reaching its caller, who recovers): the next call with that key runs its own function
+// and gets its own result; the same through ResourceManager.Get, which runs inside a flight.
+func TestVerifSingleFlightAfterPanic(t *testing.T) {
+	defer vrt.WriteReport()
+	if !vrt.Shard(9) {
+		return
+	}
+	for _, entry := range []string{"Do", "DoEx", "ResourceManager.Get"} {
+		entry := entry
+		vrt.Explore(vrt.Options{Name: "singleflight/later-call-after-panic/" + entry, Bound: 0}, func(r *vrt.Run) {
+			g := NewSingleFlight()
+			m := NewResourceManager()
+			closed := 0
+			call := func(panics bool) (val any, executed bool, panicked bool) {
+				defer func() {
+					if recover() != nil {
+						panicked = true
+					}
+				}()
+				fn := func() (any, error) {
+					executed = true
+					if panics {
+						panic("the shared function failed")
+					}
+					return "v", nil
+				}
+				switch entry {
+				case "Do":
+					val, _ = g.Do("k", fn)
+				case "DoEx":
+					val, _, _ = g.DoEx("k", fn)
+				default:
+					c, _ := m.Get("k", func() (io.Closer, error) {
+						executed = true
+						if panics {
+							panic("create failed")
+						}
+						return closer{id: "k1", closed: &closed}, nil
+					})
+					if c != nil {
+						val = "v"
+					}
+				}
+				return
+			}
+			_, executed, panicked := call(true)
+			if !executed || !panicked {
+				r.Failf("first call: executed=%v, panic reached the caller=%v", executed, panicked)
+			}
+			for i := 0; i < 2; i++ {
+				val, executed, panicked := call(false)
+				r.Outcome("later call %d: executed=%v val=%v", i, executed, val)
+				if panicked {
+					r.Failf("later call %d panicked", i)
+				}
+				if entry == "ResourceManager.Get" && i == 1 {
+					if executed || val != "v" {
+						r.Failf("second Get after the successful one: create ran=%v, resource=%v (want the cached resource)", executed, val)
+					}
+					continue
+				}
+				if !executed || val != "v" {
+					r.Failf("later call %d after the panicking one: its function ran=%v and it got %v (want a fresh execution and its own result)", i, executed, val)
+				}
+			}
+		})
 	}
 }
